@@ -1,0 +1,95 @@
+//! Verification hook (`--cfg pavex_verif` only): a process-wide, totally ordered event recorder.
+//!
+//! The server code records one event per scheduling-relevant action (accept, dispatch, worker
+//! receive, inbox close, drain, wait start/end, notify, ...). Actions whose order relative to
+//! another thread matters (`try_send`, `close`, `poll_recv`, oneshot sends) are performed while the
+//! recorder lock is held, so that the order of the log is the order in which they took effect.
+//! Nothing here is compiled without `--cfg pavex_verif`.
+use std::sync::{Mutex, MutexGuard, OnceLock};
+use std::time::Instant;
+
+/// One recorded event: a kind and up to two numeric arguments, plus the microseconds elapsed
+/// since the last [`reset`].
+#[derive(Debug, Clone)]
+pub struct Event {
+    pub kind: &'static str,
+    pub a: u64,
+    pub b: u64,
+    pub t_us: u64,
+}
+
+pub struct Log {
+    events: Vec<Event>,
+    origin: Instant,
+}
+
+impl Log {
+    pub fn push(&mut self, kind: &'static str, a: u64, b: u64) {
+        let t_us = self.origin.elapsed().as_micros() as u64;
+        self.events.push(Event { kind, a, b, t_us });
+    }
+}
+
+fn log() -> &'static Mutex<Log> {
+    static LOG: OnceLock<Mutex<Log>> = OnceLock::new();
+    LOG.get_or_init(|| {
+        Mutex::new(Log {
+            events: Vec::new(),
+            origin: Instant::now(),
+        })
+    })
+}
+
+/// Take the recorder lock: the caller performs its (non-blocking) action and then `push`es.
+pub fn lock() -> MutexGuard<'static, Log> {
+    log().lock().unwrap_or_else(|p| p.into_inner())
+}
+
+/// Record a single event.
+pub fn record(kind: &'static str, a: u64, b: u64) {
+    lock().push(kind, a, b);
+}
+
+/// A copy of everything recorded since the last [`reset`].
+pub fn snapshot() -> Vec<Event> {
+    lock().events.clone()
+}
+
+/// Forget everything and restart the clock.
+pub fn reset() {
+    let mut l = lock();
+    l.events.clear();
+    l.origin = Instant::now();
+}
+
+thread_local! {
+    static WORKER_ID: std::cell::Cell<u64> = const { std::cell::Cell::new(u64::MAX) };
+}
+
+/// Called by a worker at the start of its event loop (workers are threads).
+pub fn set_worker_id(id: u64) {
+    WORKER_ID.with(|w| w.set(id));
+}
+
+/// The id of the worker running on this thread.
+pub fn worker_id() -> u64 {
+    WORKER_ID.with(|w| w.get())
+}
+
+/// `ShutdownMode` as a number: 0 = graceful, 1 = forced.
+pub fn mode_code(mode: &super::ShutdownMode) -> u64 {
+    if mode.is_graceful() { 0 } else { 1 }
+}
+
+/// Records `c_end` when the task serving a connection is finished or dropped; `b` = 1 iff the
+/// connection future ran to completion.
+pub struct ConnEnd {
+    pub conn: u64,
+    pub completed: bool,
+}
+
+impl Drop for ConnEnd {
+    fn drop(&mut self) {
+        record("c_end", self.conn, self.completed as u64);
+    }
+}
